@@ -373,6 +373,9 @@ def gen_config(rng, model=None, real_ok=True):
         if cfg['hom']['function'] == 'lab':
             cfg['hom']['labyrinth'] = rng.choice([1, 1.5, 2])
         if provider == 'synth' and cfg['hom_spec']['undefined']:
+            # bounds (and finiteness) are not claimed for sets with undefined mobilities under the Hashin-Shtrikman rules
+            if 'hashin' in cfg['hom']['function']:
+                cfg['hom']['function'] = rng.choice(['wiener upper', 'lab'])
             cfg['hom']['post'] = rng.choice(['majority', 'predefined', 'exclude'])
             if cfg['hom']['post'] == 'predefined':
                 cfg['hom']['post_args'] = phases[0]
@@ -421,7 +424,14 @@ def pilot_dt(cfg):
     c = copy.deepcopy(cfg)
     if c['T'].get('time_scale'):
         c['T'] = {'kind': 'const', 'T': c['T']['temps'][0]}
-    m, _ = build(c)
-    m.setup()
-    _, dt = m.getFluxes()
-    return float(dt)
+    try:
+        m, _ = build(c)
+        m.setup()
+        with np.errstate(all='ignore'):
+            _, dt = m.getFluxes()
+        dt = float(dt)
+    except Exception as e:  # noqa  (e.g. no flux anywhere in the initial state: the model's own step rule is undefined)
+        raise core.Inconclusive(f'no stability step from the initial state ({type(e).__name__})')
+    if not (math.isfinite(dt) and dt > 0):
+        raise core.Inconclusive('non-finite stability step from the initial state (undefined mobilities under this averaging rule)')
+    return dt
